@@ -28,7 +28,11 @@ def run_one(seed, prop, tier):
         env = dict(os.environ, QUANTITY_SRC=wt + '/src', SYMX_EVIDENCE_DIR=ev, SYMX_REPLAY_DIR=ev,
                    VERIF_NPROC=os.environ.get('SEED_NPROC', '6'))
         t0 = time.time()
-        r = subprocess.run([ROOT + '/bin/check', prop, '--tier', tier], capture_output=True, text=True, env=env, cwd=ROOT)
+        try:
+            r = subprocess.run([ROOT + '/bin/check', prop, '--tier', tier], capture_output=True, text=True, env=env,
+                               cwd=ROOT, timeout=1500, start_new_session=True)
+        except subprocess.TimeoutExpired as te:
+            return {'seed': seed, 'prop': prop, 'rc': 'timeout', 'wall': 1500, 'violations': [], 'tail': ['timeout']}
         out = r.stdout
         viol = [l for l in out.splitlines() if l.startswith('VIOLATION')]
         res = {'seed': seed, 'prop': prop, 'rc': r.returncode, 'wall': round(time.time() - t0, 1),
